@@ -122,15 +122,17 @@ def run(ctx):
             if not matches(got, ref['decode'], payload):
                 report('safe_decode-policy', 'safe_decode(%r, incoming=%r, errors=%r)' % (payload, inc, c['pol']), got, ref['decode'], c)
         else:
-            arg = {'str': 'A', 'bytes': b'A', 'other': rnd.choice([None, 5, ['A'], 1.5, bytearray(b'A')])}[c['kind']]
-            fn = {'safe_decode': lambda: outcome(encodeutils.safe_decode, arg, incoming='utf-8'),
-                  'safe_encode': lambda: outcome(encodeutils.safe_encode, arg, incoming='utf-8', encoding='utf-8'),
-                  'to_utf8': lambda: outcome(encodeutils.to_utf8, arg)}[c['fn']]
-            key = {'safe_decode': 'decode', 'safe_encode': 'encode', 'to_utf8': 'utf8'}[c['fn']]
-            got = fn()
-            n += 1
-            if not matches(got, ref[key], arg):
-                report('type-contract', '%s(%r)' % (c['fn'], arg), got, ref[key], c)
+            # every kind of "other" argument, also those that resemble bytes (bytearray, memoryview) or text
+            others = [None, 5, ['A'], 1.5, bytearray(b'A'), memoryview(b'A'), ('A',), {'A': 1}, object()]
+            for arg in ({'str': ['A'], 'bytes': [b'A'], 'other': others}[c['kind']]):
+                fn = {'safe_decode': lambda: outcome(encodeutils.safe_decode, arg, incoming='utf-8'),
+                      'safe_encode': lambda: outcome(encodeutils.safe_encode, arg, incoming='utf-8', encoding='utf-8'),
+                      'to_utf8': lambda: outcome(encodeutils.to_utf8, arg)}[c['fn']]
+                key = {'safe_decode': 'decode', 'safe_encode': 'encode', 'to_utf8': 'utf8'}[c['fn']]
+                got = fn()
+                n += 1
+                if not matches(got, ref[key], arg):
+                    report('type-contract', '%s(%r)' % (c['fn'], arg), got, ref[key], c)
     ctx.cov['evaluations'] += n
     ctx.cov['distinct_nontrivial'] += len(res.records)
     if len(counts) < 5:
@@ -169,6 +171,14 @@ def run(ctx):
                 if r != want_d:
                     ctx.violation({'kind': 'default-incoming', 'stdin': str(enc)}, {'bytes': repr(raw), 'stdin_encoding': enc, 'observed': repr(r)},
                                   'safe_decode(%r) with sys.stdin.encoding=%s -> %s, specification %s' % (raw, enc, repr(r)[:80], want_d))
+            # an empty `incoming` is "not given" (the default is used), for both helpers
+            for raw in (b'abc', b'caf\xc3\xa9'):
+                idn += 1
+                a, b = outcome(encodeutils.safe_decode, raw, incoming=''), outcome(encodeutils.safe_decode, raw)
+                e1, e2 = outcome(encodeutils.safe_encode, raw, incoming='', encoding='utf-8'), outcome(encodeutils.safe_encode, raw, encoding='utf-8')
+                if a != b or e1 != e2:
+                    ctx.violation({'kind': 'empty-incoming', 'stdin': str(enc)}, {'bytes': repr(raw), 'observed': [repr(a), repr(b), repr(e1), repr(e2)]},
+                                  "incoming='' differs from no incoming for %r (stdin %s): %s vs %s / %s vs %s" % (raw, enc, a, b, e1, e2))
             for text in ('', 'abc', 'caf\xe9', '日本'):
                 idn += 1
                 r = outcome(encodeutils.safe_decode, text)
